@@ -85,8 +85,8 @@ def replay(rec: dict) -> bool:
         ok, impl, *_ = _diff_filter(r["case"])
         return ok and not any(rig.per_frame_oracle(a) for a in impl)
     if r.get("rig") == "net":
-        res = netrig.run_scenario(r["scenario"])
-        return not res["violations"]
+        res = netrig.run_scenario(r["scenario"], control=False)
+        return not res["violations"] and not res["model_bad"]
     return True
 
 
